@@ -238,6 +238,12 @@ func (fr *Frame) staticCall(callee *ssa.Function, free []Val, args []Val, st *St
 			}
 		}
 	}
+	if c.fc != nil && c.fc.RowMajor && callee != c.top {
+		// callers in the general-rank interface model use a callee's "#rowmajor" contract where there is one
+		if vfc := c.cs.Funcs[funcKey(callee)+"#rowmajor"]; vfc != nil {
+			return fr.callByContract(vfc, callee.Signature, paramNames(callee), args, st, pos, callee.String()+"#rowmajor")
+		}
+	}
 	if c.fc != nil && c.fc.Variant != "" {
 		if vfc := c.cs.Funcs[funcKey(callee)+"#"+c.fc.Variant]; vfc != nil && callee != c.top {
 			return fr.callByContract(vfc, callee.Signature, paramNames(callee), args, st, pos, callee.String()+"#"+c.fc.Variant)
